@@ -297,8 +297,8 @@ pub fn flate_decode(data: &[u8], params: &LZWFlateParams) -> Result<Vec<u8>> {
 /// Undoes the /Predictor of LZWDecode and FlateDecode parameters (ISO 32000-1 7.4.4.4) on decoded data.
 fn undo_predictor(decoded: Vec<u8>, params: &LZWFlateParams) -> Result<Vec<u8>> {
     let predictor = params.predictor as usize;
-    // 1 = no prediction; 2 (TIFF) and the undefined 3..=9 are left alone as before
-    if predictor < 10 {
+    // 1 = no prediction; 3..=9 are not defined and are left alone as before
+    if predictor < 2 || (3 .. 10).contains(&predictor) {
         return Ok(decoded);
     }
     // the row geometry comes from the file: reject what cannot describe a row of the decoded data.
@@ -315,6 +315,28 @@ fn undo_predictor(decoded: Vec<u8>, params: &LZWFlateParams) -> Result<Vec<u8>> 
         (Some(row_bits), Some(n_components), Some(bits)) if row_bits < usize::MAX - 8 => ((row_bits + 7) / 8, (n_components * bits + 7) / 8),
         _ => bail!("invalid predictor geometry: {} columns, {} components, {} bits", params.columns, params.n_components, params.bits_per_component)
     };
+
+    if predictor == 2 {
+        // TIFF predictor 2: every sample is the difference to the sample of the same component of the pixel to its left
+        let n_components = n_components.unwrap();
+        let mut out = decoded;
+        match bits {
+            Some(8) => for row in out.chunks_mut(stride) {
+                for i in n_components .. row.len() {
+                    row[i] = row[i].wrapping_add(row[i - n_components]);
+                }
+            },
+            Some(16) => for row in out.chunks_mut(stride) {
+                for i in (2 * n_components .. row.len().saturating_sub(1)).step_by(2) {
+                    let left = u16::from_be_bytes([row[i - 2 * n_components], row[i - 2 * n_components + 1]]);
+                    let v = u16::from_be_bytes([row[i], row[i + 1]]).wrapping_add(left);
+                    row[i .. i + 2].copy_from_slice(&v.to_be_bytes());
+                }
+            },
+            _ => bail!("TIFF predictor with {} bits per component is not supported", params.bits_per_component)
+        }
+        return Ok(out);
+    }
 
     // 10..=15 are the PNG predictors; 10 (None on every row) still has a tag byte per row
     if predictor >= 10 {
